@@ -129,3 +129,13 @@ package hcl
 //@ trusted
 //@ assigns allof(hclsyntax.AnonSymbolExpr.values), allmaps(hclsyntax.AnonSymbolExpr.values)
 //@ ensures ret0 == exprVal(self, ctx)
+// Range, StartRange and Variables only read the expression.
+// verif:func (Expression).Range
+//@ trusted
+//@ pure
+// verif:func (Expression).StartRange
+//@ trusted
+//@ pure
+// verif:func (Expression).Variables
+//@ trusted
+//@ assigns nothing
